@@ -152,7 +152,18 @@ def check(rep, tier, seed):
     sfiles = {"dup.txt": b"a\tA\na\tB\n", "odd.txt": b"a\tA\tx\n\nb\n\tB\n", "crlf.txt": b"a\tA\r\nb\tB\r\n", "empty.txt": b"", "nl.txt": b"\n\n", "bin.txt": b"\xff\xfe\x00a\n"}
     for n, b in sfiles.items():
         open(os.path.join(WORK, "c17_" + n), "wb").write(b)
-    for s in ("a=A,a=B", "a=A,b=B,a=B", "a=A,b=A,a=B", "a,a", "a=A,a=A", "a=,b=", "=A", ",", "a==A", "a=A=B", "zz", "a=A,zz=B", "a,b=B,c"):
+    # every list of 2-4 entries over samples {a,b,c} x labels {A,B,C} that names a sample twice (a later entry replaces the
+    # population of an earlier one and may leave ANY of the populations - first, middle, last - without samples)
+    dup_lists = []
+    for n in (2, 3, 4):
+        for names in itertools.product("abc", repeat=n):
+            if len(set(names)) == n:
+                continue
+            for labels in itertools.product("ABC", repeat=n):
+                dup_lists.append(",".join("%s=%s" % (x, y) for x, y in zip(names, labels)))
+    dup_lists = dup_lists if tier == "thorough" else ["a=A,b=B,b=C", "a=A,b=B,a=C", "a=A,b=B,c=C,b=A", "a=A,b=B,c=C,a=C"] + rng.sample(dup_lists, 120)
+    rep.coverage["contradictory_sample_lists"] = len(dup_lists)
+    for s in ["a=A,a=B", "a=A,b=B,a=B", "a=A,b=A,a=B", "a,a", "a=A,a=A", "a=,b=", "=A", ",", "a==A", "a=A=B", "zz", "a=A,zz=B", "a,b=B,c"] + dup_lists:
         jobs.append((["create", "-s", s], vcf, "samples"))
         jobs.append((["create", "-s", s, "-p", "1"], vcf, "samples"))
     for n in sfiles:
